@@ -42,4 +42,247 @@ theorem wr_whole_rd (s : Store) (n : String) (v : BV) : (s.wr (.whole n) v).rd =
   simp only [Store.wr, setVal_rd]
   rfl
 
+/-- no `always @(*)` blocks (a flat design has only `always @(posedge …)`) -/
+def NoStar (f : V.Flat) : Prop := ∀ ep, ep ∈ f.procs → ep.1 ≠ Event.star
+
+theorem fold_id {α β : Type} (g : α → β → α) (l : List β) (h : ∀ s b, b ∈ l → g s b = s) (s : α) : l.foldl g s = s := by
+  induction l generalizing s with
+  | nil => rfl
+  | cons b l ih => simp only [List.foldl]; rw [h s b (by simp)]; exact ih (fun s b hb => h s b (by simp [hb])) s
+
+theorem fold_assigns_rd (g : Store → LHS × Expr → Store)
+    (hg : ∀ s a, g s a = s.wr (resolve s.rd a.1) (evalAssign s.rd (lhsWidth s.rd a.1) a.2))
+    (as : List (LHS × Expr)) (s : Store) (hok : ∀ a, a ∈ as → LhsOk s.rd a.1) :
+    (as.foldl g s).rd = passA as s.rd := by
+  induction as generalizing s with
+  | nil => rfl
+  | cons a as ih =>
+    simp only [List.foldl, passA]
+    have hl := hok a (by simp)
+    have hstep : (g s a).rd = stepA s.rd a := by
+      rw [hg]
+      unfold stepA
+      rw [hl.1, wr_whole_rd]
+      rfl
+    have := ih (g s a) (by
+      intro b hb
+      rw [hstep]
+      exact LhsOk_congr (stepA_info _ _).symm (hok b (by simp [hb])))
+    simp only [passA] at this
+    rw [this, hstep]
+
+/-- **`V.settlePass` is `passA`** on a flat design -/
+theorem settlePass_rd (f : V.Flat) (hns : NoStar f) (s : Store) (hok : ∀ a, a ∈ f.assigns → LhsOk s.rd a.1) :
+    (settlePass f s).rd = passA f.assigns s.rd := by
+  unfold settlePass
+  rw [fold_id _ f.procs]
+  · exact fold_assigns_rd _ (fun s a => rfl) f.assigns s hok
+  · intro s ep hep
+    obtain ⟨ev, p⟩ := ep
+    have hne := hns (ev, p) hep
+    cases ev with
+    | star => exact absurd rfl hne
+    | pos c => rfl
+    | neg c => rfl
+
+/-! ### `settleLoop` -/
+
+instance : LawfulBEq BV where
+  eq_of_beq h := (bv_beq _ _).mp h
+  rfl := (bv_beq _ _).mpr rfl
+
+theorem foldl_and {α : Type} (l : List α) (p : α → Bool) (b : Bool) :
+    l.foldl (fun acc x => acc && p x) b = true ↔ b = true ∧ ∀ x, x ∈ l → p x = true := by
+  induction l generalizing b with
+  | nil => simp
+  | cons a l ih =>
+    simp only [List.foldl, ih, Bool.and_eq_true, List.mem_cons]
+    constructor
+    · rintro ⟨⟨hb, ha⟩, hl⟩
+      refine ⟨hb, ?_⟩
+      intro x hx
+      rcases hx with e | e
+      · rw [e]; exact ha
+      · exact hl x e
+    · rintro ⟨hb, hl⟩
+      exact ⟨⟨hb, hl a (Or.inl rfl)⟩, fun x hx => hl x (Or.inr hx)⟩
+
+theorem sameStore_iff (a b : Store) :
+    sameStore a b = true ↔
+      (∀ (k : String) (v : BV), b.vals[k]? = some v → a.rd.val k = v) ∧
+      (∀ (k : String) (arr : Array BV), b.mems[k]? = some arr → ∃ x, a.mems[k]? = some x ∧ (x == arr) = true) := by
+  unfold sameStore
+  rw [Bool.and_eq_true, HashMap.fold_eq_foldl_toList, HashMap.fold_eq_foldl_toList]
+  rw [foldl_and, foldl_and]
+  constructor
+  · rintro ⟨⟨_, h1⟩, ⟨_, h2⟩⟩
+    constructor
+    · intro k v hkv
+      have := h1 (k, v) (HashMap.mem_toList_iff_getElem?_eq_some.mpr hkv)
+      exact (bv_beq _ _).mp this
+    · intro k arr hk
+      have := h2 (k, arr) (HashMap.mem_toList_iff_getElem?_eq_some.mpr hk)
+      simp only at this
+      cases hx : a.mems[k]? with
+      | none => rw [hx] at this; cases this
+      | some x => rw [hx] at this; exact ⟨x, rfl, this⟩
+  · rintro ⟨h1, h2⟩
+    refine ⟨⟨rfl, ?_⟩, ⟨rfl, ?_⟩⟩
+    · intro kv hkv
+      have := h1 kv.1 kv.2 (HashMap.mem_toList_iff_getElem?_eq_some.mp hkv)
+      exact (bv_beq _ _).mpr this
+    · intro kv hkv
+      obtain ⟨x, hx, hb⟩ := h2 kv.1 kv.2 (HashMap.mem_toList_iff_getElem?_eq_some.mp hkv)
+      simp only [hx, hb]
+
+/-- what whole-net writes leave alone -/
+structure Keeps (s s' : Store) : Prop where
+  info : s'.info = s.info
+  mems : s'.mems = s.mems
+  mono : ∀ k : String, (s.vals[k]?).isSome = true → (s'.vals[k]?).isSome = true
+
+theorem Keeps.refl (s : Store) : Keeps s s := ⟨rfl, rfl, fun _ h => h⟩
+
+theorem Keeps.trans {a b c : Store} (h1 : Keeps a b) (h2 : Keeps b c) : Keeps a c :=
+  ⟨h2.info.trans h1.info, h2.mems.trans h1.mems, fun k h => h2.mono k (h1.mono k h)⟩
+
+theorem keeps_setVal (s : Store) (n : String) (v : BV) : Keeps s (s.setVal n v) := by
+  unfold Store.setVal
+  simp only
+  split
+  · exact Keeps.refl s
+  · refine ⟨rfl, rfl, ?_⟩
+    intro k hk
+    simp only [HashMap.getElem?_insert]
+    split
+    · rfl
+    · exact hk
+
+theorem keeps_wr_whole (s : Store) (n : String) (v : BV) : Keeps s (s.wr (.whole n) v) := keeps_setVal _ _ _
+
+theorem keeps_fold (g : Store → LHS × Expr → Store)
+    (hg : ∀ s a, g s a = s.wr (resolve s.rd a.1) (evalAssign s.rd (lhsWidth s.rd a.1) a.2))
+    (as : List (LHS × Expr)) (s : Store) (hok : ∀ a, a ∈ as → LhsOk s.rd a.1) : Keeps s (as.foldl g s) := by
+  induction as generalizing s with
+  | nil => exact Keeps.refl s
+  | cons a as ih =>
+    simp only [List.foldl]
+    have hl := hok a (by simp)
+    have hk : Keeps s (g s a) := by rw [hg, hl.1]; exact keeps_wr_whole _ _ _
+    have hrd : (g s a).rd.info = s.rd.info := by
+      show (fun n => (g s a).info[n]?) = fun n => s.info[n]?
+      rw [hk.info]
+    exact hk.trans (ih (g s a) (fun b hb => LhsOk_congr hrd.symm (hok b (by simp [hb]))))
+
+theorem keeps_settlePass (f : V.Flat) (hns : NoStar f) (s : Store) (hok : ∀ a, a ∈ f.assigns → LhsOk s.rd a.1) :
+    Keeps s (settlePass f s) := by
+  unfold settlePass
+  rw [fold_id _ f.procs]
+  · exact keeps_fold _ (fun s a => rfl) f.assigns s hok
+  · intro s ep hep
+    obtain ⟨ev, p⟩ := ep
+    have hne := hns (ev, p) hep
+    cases ev with
+    | star => exact absurd rfl hne
+    | pos c => rfl
+    | neg c => rfl
+
+/-- a pass that changed no observable value is detected as such, and conversely -/
+theorem sameStore_pass (f : V.Flat) (hns : NoStar f) (s : Store) (hok : ∀ a, a ∈ f.assigns → LhsOk s.rd a.1) :
+    sameStore s (settlePass f s) = true ↔ (settlePass f s).rd = s.rd := by
+  have hk := keeps_settlePass f hns s hok
+  rw [sameStore_iff]
+  constructor
+  · rintro ⟨h1, _⟩
+    apply rd_ext
+    · show (fun n => (settlePass f s).info[n]?) = fun n => s.info[n]?
+      rw [hk.info]
+    · simp only [Store.rd, hk.mems, hk.info]
+    · intro k
+      cases hv : (settlePass f s).vals[k]? with
+      | some v =>
+        rw [h1 k v hv]
+        simp [Store.rd, hv]
+      | none =>
+        have hs : s.vals[k]? = none := by
+          cases hs : s.vals[k]? with
+          | none => rfl
+          | some v' =>
+            have := hk.mono k (by rw [hs]; rfl)
+            rw [hv] at this; cases this
+        simp [Store.rd, hv, hs, hk.info]
+  · intro h
+    constructor
+    · intro k v hkv
+      have : (settlePass f s).rd.val k = v := by simp [Store.rd, hkv]
+      rw [← this, h]
+    · intro k arr hk'
+      rw [hk.mems] at hk'
+      exact ⟨arr, hk', beq_self_eq_true arr⟩
+
+theorem iter_fix {α : Type} (g : α → α) (a : α) (h : g a = a) (k : Nat) : Net.iter g k a = a := by
+  induction k with
+  | zero => rfl
+  | succ k ih => simp only [Net.iter]; rw [h]; exact ih
+
+theorem settleLoop_aux (f : V.Flat) (hns : NoStar f) (fin : Rd) (fuel : Nat) :
+    ∀ (m : Nat) (s : Store), (∀ a, a ∈ f.assigns → LhsOk s.rd a.1) →
+      (∀ m', m ≤ m' → Net.iter (passA f.assigns) m' s.rd = fin) → m < fuel →
+      (settleLoop f fuel s).2 = true ∧ (settleLoop f fuel s).1.rd = fin := by
+  induction fuel with
+  | zero => intro m s _ _ h; omega
+  | succ fuel ih =>
+    intro m s hok hQ hm
+    have hpass := settlePass_rd f hns s hok
+    unfold settleLoop
+    simp only
+    by_cases hsame : sameStore s (settlePass f s) = true
+    · rw [if_pos hsame]
+      refine ⟨rfl, ?_⟩
+      have hrd := (sameStore_pass f hns s hok).mp hsame
+      rw [hrd]
+      have hfix : passA f.assigns s.rd = s.rd := by rw [← hpass, hrd]
+      rw [← hQ m (Nat.le_refl _), iter_fix _ _ hfix]
+    · rw [if_neg hsame]
+      cases m with
+      | zero =>
+        exfalso
+        apply hsame
+        rw [sameStore_pass f hns s hok, hpass]
+        have h0 : s.rd = fin := hQ 0 (Nat.le_refl _)
+        have h1 : passA f.assigns s.rd = fin := hQ 1 (by omega)
+        rw [h1, h0]
+      | succ m0 =>
+        apply ih m0 (settlePass f s)
+        · intro a ha
+          have : (settlePass f s).rd.info = s.rd.info := by rw [hpass, passA_info]
+          exact LhsOk_congr this.symm (hok a ha)
+        · intro m' hm'
+          rw [hpass]
+          have := hQ (m' + 1) (by omega)
+          simpa [Net.iter] using this
+        · omega
+
+/-- **`V.settleLoop` computes the settled store and reports success** on a flat design: with the fuel `Sim.settle`
+    gives it (`assigns.length + procs.length + 3`) or any fuel above `assigns.length`, from ANY store -/
+theorem settleLoop_rd (f : V.Flat) (hns : NoStar f) {topo : List (LHS × Expr)} (hp : f.assigns.Perm topo) (hA : Acyc topo)
+    (fuel : Nat) (s : Store) (hok : ∀ a, a ∈ f.assigns → LhsOk s.rd a.1) (hfuel : f.assigns.length < fuel) :
+    (settleLoop f fuel s).2 = true ∧ (settleLoop f fuel s).1.rd = settleA f.assigns s.rd := by
+  have hfin : settleA f.assigns s.rd = passA topo s.rd := iter_eq_topo hp hA s.rd hok _ (Nat.le_refl _)
+  rw [hfin]
+  apply settleLoop_aux f hns (passA topo s.rd) fuel f.assigns.length s hok _ hfuel
+  intro m' hm'
+  exact iter_eq_topo hp hA s.rd hok m' hm'
+
+/-- `Sim.settle` on a flat design: no error is logged and the store is the settled one -/
+theorem sim_settle_rd (m : Sim) (hns : NoStar m.flat) {topo : List (LHS × Expr)} (hp : m.flat.assigns.Perm topo)
+    (hA : Acyc topo) (hok : ∀ a, a ∈ m.flat.assigns → LhsOk m.st.rd a.1) :
+    m.settle.st.rd = settleA m.flat.assigns m.st.rd ∧ m.settle.errors = m.errors ∧ m.settle.flat = m.flat ∧
+    m.settle.clk = m.clk := by
+  have h := settleLoop_rd m.flat hns hp hA (m.flat.assigns.length + m.flat.procs.length + 3) m.st hok (by omega)
+  refine ⟨h.2, ?_, rfl, rfl⟩
+  show (if (settleLoop m.flat (m.flat.assigns.length + m.flat.procs.length + 3) m.st).2 = true then m.errors
+    else m.errors ++ ["combinational logic did not settle"]) = m.errors
+  rw [h.1]; rfl
+
 end FlatM
